@@ -415,7 +415,7 @@ func (r *Runner) Solve(vc *VC, o *Obl, idx int) *Result {
 			}
 			t0 := time.Now()
 			to := r.timeout
-			if o.ExpectSat && to > 3 {
+			if o.ExpectSat && to > 3 && !strings.HasPrefix(o.Name, "cover/prelude/") {
 				to = 3
 			}
 			argv := s.argv(file, to)
